@@ -118,7 +118,11 @@ Definition ref_l4 (base : ref_frame) (proto : N) (seg : bytes) (off : nat) : ref
       | None => ROk (with_l4 base 8 sp dp (Some off) None off)
       end
   | Some L4TCP =>
+      (* RFC 793: fixed header of 20 bytes; the data offset (high nibble of byte 12, in 32-bit words) is the
+         header's own length field: at least 5 words and not beyond the bytes present *)
       if Nat.ltb (length seg) 20 then RErr else
+      let doff := N.to_nat (4 * (byte_at seg 12 / 16)) in
+      if Nat.ltb doff 20 || Nat.ltb (length seg) doff then RErr else
       ROk (with_l4 base 9 (word_at seg 0) (word_at seg 2) None (Some off) off)
   | Some (L4ICMP id) =>
       if Nat.ltb (length seg) 8 then RErr else ROk (with_l4 base id 0 0 None None off)
